@@ -349,6 +349,8 @@ func npmDef() sysDef {
 				r.Alias = "c" // the alias spells the name of a real package
 			case "twin-devopt":
 				r.TwinDevOpt = true
+			case "twin-alias":
+				r.TwinAlias = true
 			}
 		},
 		// package.json keys are unique: one version cannot declare two dependencies under one alias, nor an alias
@@ -373,6 +375,13 @@ func npmDef() sysDef {
 						return false
 					}
 					keys[k] = true
+					if r.TwinAlias {
+						n++
+						if r.Alias != "" || keys["x"] || v.Pkg == "x" {
+							return false
+						}
+						keys["x"] = true
+					}
 				}
 				if n > 1 {
 					return false
@@ -410,7 +419,7 @@ func npmZeroDef() sysDef {
 	}
 	d.targets = []string{"a", "c"}
 	d.reqs = NPMZeroReqs
-	d.decor = []string{"opt", "dev"}
+	d.decor = []string{"opt", "dev", "twin-alias"}
 	return d
 }
 
@@ -655,7 +664,20 @@ func PyPISpaces() []*Space {
 		{vi("a", "1.0"), Req{Pkg: "c", Ver: ">=1.0"}},
 		{vi("b", "2.0"), Req{Pkg: "a", Ver: "<2.0"}},
 	}
-	return []*Space{newSpace(d, "empty", nil), newSpace(d, "conflict", conflict), newSpace(d, "extras", extras), newSpace(d, "cycle-pre", cycle), newSpace(d, "repin", repin)}
+	// loop re-pinned behind its entry point: a@2.0 brings in b@2.0, b brings in c@2.0, c's requirement moves b to 1.0
+	// (b is now listed after c), b@1.0 moves a to 1.0, and a@1.0 is the only live way into the loop b <-> c, through c:
+	// a search for connected versions that starts at c walks into b, comes back to c and must not conclude anything
+	// about b from that
+	loop := []tmplReq{
+		{vi("r", "1.0"), Req{Pkg: "a", Ver: ""}},
+		{vi("a", "2.0"), Req{Pkg: "b", Ver: ">=1.0"}},
+		{vi("a", "1.0"), Req{Pkg: "c", Ver: ""}},
+		{vi("b", "2.0"), Req{Pkg: "c", Ver: ">=1.0"}},
+		{vi("b", "1.0"), Req{Pkg: "c", Ver: ">=1.0"}},
+		{vi("b", "1.0"), Req{Pkg: "a", Ver: "<2.0"}},
+		{vi("c", "2.0"), Req{Pkg: "b", Ver: "<2.0"}},
+	}
+	return []*Space{newSpace(d, "empty", nil), newSpace(d, "conflict", conflict), newSpace(d, "extras", extras), newSpace(d, "cycle-pre", cycle), newSpace(d, "repin", repin), newSpace(d, "loop-repin", loop)}
 }
 
 // AllSpaces lists every family used for histories and schedules (C05). The npm alias-name family is left to C06: with
